@@ -108,8 +108,9 @@ type vEntry struct {
 }
 
 type vScn struct {
-	Fam string   `json:"fam"`
-	Log []vEntry `json:"log"`
+	Salt int      `json:"-"` // varies the concretisation of broken policy states between scenarios
+	Fam  string   `json:"fam"`
+	Log  []vEntry `json:"log"`
 }
 
 type vRes struct {
@@ -223,6 +224,10 @@ type vRepo struct {
 	rootKey string // key name of the current root principal
 	rootVer int
 	nPol    int
+	tgtVer  int
+	subVer  int
+	salt    int
+	rich    bool // policy states carry a delegated rule file and use the wider set of chain / self-validity breaks
 }
 
 func newVRepo(seed int64, pols map[string]vPolicy) *vRepo {
@@ -284,15 +289,36 @@ func (r *vRepo) add(pos int, e vEntry) error {
 		cv, sv := e.Cv == nil || *e.Cv, e.Sv == nil || *e.Sv
 		r.nPol++
 		r.rootVer++
+		r.tgtVer++
+		r.subVer++
 		signer := r.rootKey
+		// rich states carry a delegated rule file (for a reference no scenario uses), so that its rollback / removal /
+		// signature can be broken too
+		hasSub, subSig := r.rich, []string{"subkey"}
 		if !cv && r.nPol > 1 {
-			if (int(r.seed)+pos)%2 == 0 && r.rootVer > 1 {
+			variant := (int(r.seed) + pos) % 2
+			if r.rich {
+				variant = (int(r.seed) + pos + r.salt) % 5
+			}
+			switch {
+			case variant == 0 && r.rootVer > 1:
 				// version rollback: the root's version number decreases
 				r.rootVer -= 2
 				if r.rootVer < 0 {
 					r.rootVer = 0
 				}
-			} else {
+			case variant == 2:
+				// the primary rule file's version decreases
+				r.tgtVer -= 2
+			case variant == 3:
+				// a delegated rule file's version decreases while the primary rule file keeps its version
+				r.tgtVer--
+				r.subVer -= 2
+			case variant == 4:
+				// a delegated rule file disappears while the primary rule file keeps its version
+				r.tgtVer--
+				hasSub = false
+			default:
 				// the root of trust is replaced by a key the previous root principals did not sign for
 				r.rootKey = fmt.Sprintf("intruder%d", pos)
 				signer = r.rootKey
@@ -304,9 +330,33 @@ func (r *vRepo) add(pos int, e vEntry) error {
 			ap.RootVer = -1 // BuildMetadata keeps the default (1) for 0; force an explicit 0
 		}
 		ap.Targets.Sig = []string{r.rootKey}
+		if r.rich {
+			ap.Targets.Ver = r.tgtVer + 10 // versions stay positive through rollbacks
+			ap.Targets.Rules = append(ap.Targets.Rules, conc.AbsRule{Name: "sub", Pats: []string{"git:refs/heads/side"}, Pr: []string{"subkey"}, Thr: 1})
+		}
 		if !sv {
-			// the primary rule file is signed by a key its root does not name
-			ap.Targets.Sig = []string{"stranger"}
+			variant := 0
+			if r.rich {
+				variant = (int(r.seed) + pos + r.salt/5) % 3
+			}
+			if variant == 2 && !hasSub {
+				variant = 0
+			}
+			switch variant {
+			case 1:
+				// the primary rule file carries fewer signatures than its own root demands (the root's own threshold is lower)
+				ap.TgtPr, ap.TgtThr = []string{r.rootKey, "tgt2"}, 2
+			case 2:
+				// a delegated rule file is signed by a key its delegation does not name
+				subSig = []string{"stranger"}
+			default:
+				// the primary rule file is signed by a key its root does not name
+				ap.Targets.Sig = []string{"stranger"}
+			}
+		}
+		if hasSub {
+			ap.Files = map[string]*conc.AbsFile{"sub": {Sig: subSig, Ver: r.subVer + 10,
+				Rules: []conc.AbsRule{{Name: "sub-rule", Pats: []string{"git:refs/heads/side"}, Pr: []string{"subkey"}, Thr: 1}}}}
 		}
 		md, _ := conc.BuildMetadata(ap, r.seed)
 		mdTree, err := md.WriteTree(r.h)
@@ -588,6 +638,7 @@ func runVerifyScn(scn vScn, pols map[string]vPolicy, strip map[string]string, se
 		obs.Twin = to.Full
 	}
 	r := newVRepo(seed, pols)
+	r.rich, r.salt = scn.Fam == "chain", scn.Salt
 	for i, e := range scn.Log {
 		if err := r.add(i+1, e); err != nil {
 			return obs, fmt.Errorf("entry %d: %w", i+1, err)
@@ -666,6 +717,7 @@ func Verify(scnPath, polPath, outPath string, seed int64, limit int) error {
 	}
 	out := make([]line, len(scns))
 	parallel(len(scns), func(i int) {
+		scns[i].Salt = i
 		o, err := runVerifyScn(scns[i], pols, polRecs[0].Strip, seed)
 		l := line{ID: i + 1, Scn: scns[i], Obs: o}
 		if err != nil {
